@@ -143,12 +143,20 @@ def main(tier, seed, replay=None):
             pname = b["name"].split("/")[0]
             pseed = int(pname[1:])
             p = vlib.save_replay(PID, pname + "-unmatched", {"seed": pseed, "judgement": b, "opts": again[pname][0]["opts"]})
-            violations.append({"key": "obs:%s:%s" % ("+".join(b["reasons"]), vlib.digest(again[pname][0]["files"])),
+            cls = None
+            if b["reasons"] == ["reported-although-matched"] and "/j1/" not in b["name"]:
+                # the obligation is violated only by reports the shadowing root cause explains?
+                proj_ = again[pname][0]
+                glob_reports = [r_ for r_ in b["reports"] if any(not s_["inline"] and not runlayer._is_local(s_) and s_["id"] == r_["id"] for s_ in proj_["supprs"])]
+                if glob_reports and all(runlayer.shadowed_global(proj_, r_["id"], r_["file"]) for r_ in glob_reports):
+                    cls = runlayer.SHADOW_CLASS
+            violations.append({"key": cls or "obs:%s:%s" % ("+".join(b["reasons"]), vlib.digest(again[pname][0]["files"])),
                                "what": "%s: %s reports=%s" % (b["name"], b["reasons"], b["reports"]), "replay": p})
         for b in bad_rel:
             pseed = int(b["group"][1:])
             p = vlib.save_replay(PID, b["group"] + "-rel", {"seed": pseed, "diff": b})
-            violations.append({"key": "rel:%s:%s" % (b["alt"].split("/")[1], vlib.digest(again[b["group"]][0]["files"])),
+            cls = runlayer.explain_parallel_unmatched(again[b["group"]][0], b["onlyRef"], b["onlyAlt"])
+            violations.append({"key": cls or "rel:%s:%s" % (b["alt"].split("/")[1], vlib.digest(again[b["group"]][0]["files"])),
                                "what": "unmatched reports differ between %s and %s: onlyRef=%s onlyAlt=%s" % (b["ref"], b["alt"], b["onlyRef"], b["onlyAlt"]), "replay": p})
         for rj in tres2.rejected:
             pname = rj["label"].split("/")[0]
